@@ -323,6 +323,71 @@ def _lossy_steps(tree, inp):
     return out
 
 
+def _halfmove_buckets_evaluated(fb, rep, clause, f, hh, vals):
+    """The same agreement judged by evaluation (added after seed C07k, which shifted the evaluation's bucket by one clock and
+    kept every constant the older obligation looks at): for every pair of half-move clocks 0..150 that Position::historyHash
+    maps to the same key, the index evalPos uses into halfMoveFactor selects the same parameter (or the same fixed value)."""
+    from ..peval import Evaluator, Unknown
+    if len(vals) != 2 or len(vals[0]) != 10 or len(vals[1]) != 10:
+        rep.broken(clause, 'halfMoveFactor: table and parameter rows not found')
+        return
+    idx_trees = []
+    for b, i, e in f.events():
+        if e.get('k') == 'call' and e.get('op') == '[]' and (ap(e.get('recv')) or '') == '::halfMoveFactor' and e.get('args'):
+            idx_trees.append((b, i, e, e['args'][0]))
+    rep.floor(clause, 'reads of halfMoveFactor in evalPos', len(idx_trees), 1)
+    decls = {}
+    for b, i, e in f.events():
+        if e.get('k') == 'decl':
+            for v in e.get('vars', []):
+                decls.setdefault(v.get('id'), []).append(v.get('init'))
+    written = {e['l'].get('id') for _, _, e in f.events() if e.get('k') == 'asg' and isinstance(e.get('l'), dict) and e['l'].get('k') == 'var'}
+
+    def cls(ix):
+        return ('param', vals[1][ix]) if vals[1][ix] else ('fixed', vals[0][ix])
+
+    def key_of(c, np):
+        ev = Evaluator(fb, stubs={'Position::nPieces': lambda e_, t_, env_, d_: np})
+        env = {'this.halfMoveClock': c, 'this.hashKey': 0, ('g', 'Position::moveCntKeys'): [((k + 1) * 0x9E3779B97F4A7C15) & 0xFFFFFFFFFFFFFFFF for k in range(101)],   # distinct, non-zero, 64 bits
+               ('g', 'TBProbeData::maxPieces'): 6}
+        return ev.run(hh, env)['ret']
+
+    for b, i, e, tree in idx_trees:
+        def inline(x, depth=0):
+            # single-definition locals that are never assigned again stand for their initialiser
+            if isinstance(x, list):
+                return [inline(y, depth) for y in x]
+            if not isinstance(x, dict):
+                return x
+            if x.get('k') == 'var' and x.get('vk') == 'local' and len(decls.get(x.get('id'), [])) == 1 and x.get('id') not in written and \
+                    decls[x['id']][0] is not None and depth < 6:
+                return inline(decls[x['id']][0], depth + 1)
+            return {k2: inline(v2, depth) for k2, v2 in x.items()}
+        t = inline(tree)
+        bad = []
+        try:
+            for np in (32, 5):
+                st = {}
+                ev = Evaluator(fb, stubs={'Position::getHalfMoveClock': lambda e_, t_, env_, d_: st['c']})
+                seen = {}
+                for c in range(0, 151):
+                    st['c'] = c
+                    ix = ev.eval(t, {})
+                    if not (isinstance(ix, int) and 0 <= ix < 10):
+                        bad.append('clock %d indexes halfMoveFactor[%s]' % (c, ix))
+                        break
+                    k = key_of(c, np)
+                    if k in seen and cls(seen[k][1]) != cls(ix):
+                        bad.append('clocks %d and %d share a history key (%d men) but scale by halfMoveFactor[%d] and [%d]' % (seen[k][0], c, np, seen[k][1], ix))
+                        break
+                    seen.setdefault(k, (c, ix))
+        except (Unknown, KeyError, TypeError, IndexError) as ex:
+            rep.broken(clause, 'half-move bucket evaluation left its fragment: %r' % (ex,))
+            return
+        rep.ob(clause, 'K11 finite evaluation', 'clocks 0..150: two clocks under one history key select the same halfMoveFactor parameter', not bad, R.site(f, e),
+               '; '.join(bad), f.sname)
+
+
 def c3_cache(fb, rep, clause='C07.3'):
     evs = [f for f in fb.find('Evaluate::evalPos') if f.d.get('targs')]
     f = next((x for x in evs if x.d.get('targs') == ['false']), None)
@@ -403,20 +468,9 @@ def c3_cache(fb, rep, clause='C07.3'):
     if rep.need(clause, hh, 'Position::historyHash') and rep.need(clause, tbl, 'global halfMoveFactor'):
         lists = [n for n in walk(tbl.get('init')) if n.get('k') == 'init' and n.get('n') == 10]
         vals = [[(_strip(x) or {}).get('cv') for x in l.get('elems', [])] for l in lists]
-        consts = set()
-        for bid, blk in hh.blocks.items():
-            t = blk.get('term')
-            for n in walk(t.get('cond')) if t and t.get('cond') else []:
-                if n.get('k') == 'bin' and n.get('op') in ('>=', '<') and 'cv' in (_strip(n.get('r')) or {}) and 'halfMoveClock' in show(n.get('l')):
-                    consts.add((n['op'], _strip(n['r'])['cv']))
-        divs = {(_strip(n.get('r')) or {}).get('cv') for _, _, e in hh.events() for n in walk(e) if n.get('k') == 'bin' and n.get('op') == '/'}
-        caps = {(_strip(a) or {}).get('cv') for _, _, e in hh.events() for n in walk(e) if n.get('k') == 'call' and cname(n) == 'std::min' for a in n.get('args', [])} - {None}
-        ediv = {(_strip(n.get('r')) or {}).get('cv') for _, _, e in f.events() for n in walk(e) if n.get('k') == 'bin' and n.get('op') == '/' and 'getHalfMoveClock' in show(n.get('l'))}
-        lo = min([c for op, c in consts if op == '>='] or [None])
-        ok = len(vals) == 2 and lo is not None and divs == {10} and ediv == {10} and caps == {100} and \
-            len(set(vals[0][:lo // 10])) == 1 and all(p == 0 for p in vals[1][:lo // 10])
-        rep.ob(clause, 'K11 constant agreement', 'half-move clocks that share a cache key share an evaluation bucket (un-keyed range maps to fixed, equal table entries)', ok, hh.where,
-               'key thresholds %s, key divisor %s, eval divisor %s, cap %s, table %s' % (sorted(consts), sorted(divs), sorted(ediv), sorted(caps), vals[:1]), hh.sname)
+        # (an older obligation compared the thresholds, divisors and caps of the two functions as constants; it reported a
+        # behaviour-preserving rewording of the index - variant halfmove_bucket_via_locals - and is subsumed by the evaluation)
+        _halfmove_buckets_evaluated(fb, rep, clause, f, hh, vals)
     # material hash key arithmetic
     ms = fb.find1('Evaluate::materialScore')
     if rep.need(clause, ms, 'Evaluate::materialScore'):
